@@ -751,8 +751,8 @@ func TestProbe_predicates(t *testing.T) {
 		`<r><a x="1" y="2"><b i="1"><g/>t</b><c/></a><d z="3"/><b i="5"/><a><b i="2"/><b w="1" i="3"/></a><a/></r>`,
 		`<r a="1"><r a="2"><r><b/></r></r>text<b/><a><a><b/></a></a></r>`,
 	}
-	bases := []string{"//a", "//b", "//*", "/r/*", "//r", "/r/a/b", "//node()"}
-	preds := []string{"b", "@x", "@i>1", "not(b)", "b and @x", "b or c", "*", "..", "ancestor::a", "following::b", "preceding::b", "following-sibling::*", "preceding-sibling::b", "descendant::b", "b[@i>1]", "count(b)>1", "self::a", "@i=2 or @i=3", "string-length(name())>0", "text()", "a/b", "b/@i", "not(@i) and not(*)", ".//b", "parent::a", "@*", "b|c", "contains(name(),'a')", "starts-with(name(), 'b')", "ancestor::*[@x]", "following::*[@w]", "*[@i]", "count(*)=0", "true()", "false()", "'x'", "''"}
+	bases := []string{"//a", "//b", "//*", "/r/*", "//r", "/r/a/b", "//node()", "//@*", "//@i", "//b/following::*", "//b/ancestor::*", "//a[b]", "//*[@i]", "//b/preceding-sibling::*", "/r/a/descendant::*", "//b/..", "(//a | //b)", "(//a/b | //d)", "//text()", "/r/a[1]/*"}
+	preds := []string{"b", "@x", "@i>1", "not(b)", "b and @x", "b or c", "*", "..", "ancestor::a", "following::b", "preceding::b", "following-sibling::*", "preceding-sibling::b", "descendant::b", "b[@i>1]", "count(b)>1", "self::a", "@i=2 or @i=3", "string-length(name())>0", "text()", "a/b", "b/@i", "not(@i) and not(*)", ".//b", "parent::a", "@*", "b|c", "contains(name(),'a')", "starts-with(name(), 'b')", "ancestor::*[@x]", "following::*[@w]", "*[@i]", "count(*)=0", "true()", "false()", "'x'", "''", ". > 1", ". = '2'", "../@x", "name()='b'", "self::*", "not(self::b)", "count(../*) > 2", "following-sibling::*[1][self::c]", "boolean(@i) = true()", "@i != 1", "string-length(.) > 0", "contains(., 't')", ".//g or self::g", "@i = ../b/@i", "count(ancestor::*) = 2", "preceding::*[@x]", "@i mod 2 = 1", "number(@i) > 1.5", "not(following::*)", "not(preceding::*)"}
 	bad := 0
 	for _, ds := range docs {
 		root := wdoc(ds)
